@@ -87,7 +87,9 @@ C["C04"] = ("Coq theorems over a model of a migrating cluster (per-node data, sl
             "redirect handling, for EVERY per-key command semantics and slot function: any sequence of migration steps keeps 'each key lives on the owner or, while migrating, on owner or "
             "target but not both' and leaves the single-server view of the data unchanged; a request started at ANY node (arbitrarily stale table), with migration steps before every hop, "
             "ends within 3 hops with exactly one execution, the single server's reply (never MOVED/ASK) and the single server's data afterwards; whole programs follow by induction. "
-            "Tie: client programs with scripted migrations, steps fired inside redirect chains, stale/fresh tables, failovers and background traffic through the real processor vs the model.",
+            "Nodes with inconsistent views (Model/Gossip.v: a finalisation reaches the old owner before the new one, which keeps answering MOVED <old owner> for a while): whenever the chain "
+            "ends, after any number of bounces, it ended with one execution and the single server's reply (unbounded fuel); it ends within 2*lag+3 hops, and exactly 2*lag+2 from the old owner. "
+            "Tie: client programs with scripted migrations, steps fired inside redirect chains, finalisation windows with lagging owners, stale/fresh tables, failovers and background traffic through the real processor vs the model.",
             "Excludes a new migration of the request's own slot between two of its hops; failover assumes the replica has the data; errors allowed only until the refresh triggered by the "
             "unreachable node completes.", "DESIGN.md §4 C04")
 C["C07"] = ("Coq theorems over a model of the backend-connection table (lookup, dial, a lost connection removing itself), the routing table and its triggered refresh, for every reachable "
